@@ -77,8 +77,11 @@ type stackFactory struct {
 	SigErr  map[string]int  // address -> number of upcoming start signals that fail
 	Dead    map[string]bool // address -> VerifyReplicaAlive answers false
 	Forward bool            // forward SignalToAdd / VerifyReplicaAlive to the node's REST
-	Creates []string
-	gate    chan struct{}
+	// ForwardAlive: only the liveness probe goes to the node (the product's own
+	// remote.Factory.VerifyReplicaAlive against the node's /ping); signals stay scripted
+	ForwardAlive bool
+	Creates      []string
+	gate         chan struct{}
 }
 
 func (f *stackFactory) Create(address string) (types.Backend, error) {
@@ -131,9 +134,9 @@ func (f *stackFactory) VerifyReplicaAlive(address string) bool {
 	f.mu.Lock()
 	f.Probes = append(f.Probes, address)
 	dead := f.Dead[address]
-	fw := f.Forward
+	fw := f.Forward || f.ForwardAlive
 	f.mu.Unlock()
-	if dead {
+	if dead && !f.ForwardAlive {
 		return false
 	}
 	if fw {
